@@ -41,7 +41,7 @@ from WallGo.PotentialTools.effectivePotentialNoResum import EffectivePotentialNo
 
 from symx import core, npx
 from symx.core import AND, Cond, Sym, close, eq
-from symx.harness import HarnessDef
+from symx.harness import HarnessDef, bare
 
 EXPLANATION = __doc__
 BOUNDS = {"integrands": "x in [0, 2000] and (-2000, 0), y in (0, 60)/(0, 80)/(0, 45), scalar argument; isolated "
@@ -85,7 +85,7 @@ def make_potential(h, option):
 
         def evaluate(self, fields, temperature):
             raise NotImplementedError
-    pot = _Pot.__new__(_Pot)
+    pot = bare(_Pot)
     pot.integrals = types.SimpleNamespace(Jb=wrap(Jb), Jf=wrap(Jf))
     pot.imaginaryOption = option
     return pot, Jb, Jf
@@ -140,6 +140,49 @@ def h_massless(h):
                   atol=0.0, scale=(nb_ + nf_ + 1e-30) * T ** 4 if h.symbolic else float((nb_ + nf_) * T ** 4 + 1e-30))
 
 
+# ---- which integrals a default-constructed potential uses ---------------------------------
+
+def h_direct(h, via):
+    """A potential constructed with its defaults ("integrals done without interpolation") and a bare
+    Integrals() evaluate Jb / Jf directly on EVERY call, whatever was evaluated before: no table is
+    built behind the user's back after some number of evaluations, so identical input gives identical
+    output at any point of the object's history."""
+    if via == "potential":
+        class _P(EffectivePotentialNoResum):
+            fieldCount = 1
+
+            def bosonInformation(self, fields, temperature):
+                raise NotImplementedError
+
+            def fermionInformation(self, fields, temperature):
+                raise NotImplementedError
+
+            def evaluate(self, fields, temperature):
+                raise NotImplementedError
+        ints = _P().integrals
+    else:
+        ints = IG.Integrals()
+    n_eval = 1300      # more than twice the adaptive-update threshold of InterpolatableFunction
+    for name in ("Jb", "Jf"):
+        J = getattr(ints, name)
+        seen = []
+
+        def impl(x, seen=seen):
+            x = np.asarray(x, dtype=float)
+            seen.append(x.size)
+            # a smooth stand-in for the quadrature (only the call pattern matters here)
+            return np.stack([np.exp(-np.abs(x) ** 0.5), 0.0 * x], axis=-1)
+        J._functionImplementation = impl
+        for k in range(n_eval):
+            J(1.0 + 9999.0 * k / (n_eval - 1))
+        probe = J(2.5)
+        h.prove(f"{name}: never interpolating (no table appeared after {n_eval} evaluations)",
+                Cond(b=not J.hasInterpolation()))
+        h.prove(f"{name}: every evaluation reached the integral itself", Cond(b=len(seen) == n_eval + 1))
+        h.prove(f"{name}: the value is the integral's, not a spline's",
+                Cond(b=bool(abs(np.ravel(probe)[0] - math.exp(-2.5 ** 0.5)) < 1e-12)))
+
+
 # ---- integrands and the piecewise assembly of Jb / Jf ------------------------------------
 
 def trig_axioms(e):
@@ -167,7 +210,7 @@ def h_integrand(h, kind, region):
         calls.append((func, a, b, v))
         return v
     h.patch_always(IG, _integrator=integ)
-    obj = cls.__new__(cls)
+    obj = bare(cls)
     if region == "pos":
         x = h.real("x", 0, 2000, strict=False, default=3.0)
     else:
@@ -277,6 +320,8 @@ HARNESSES = [
                encodes=[EffectivePotentialNoResum.potentialOneLoopThermal], random_validation=2),
     HarnessDef("massless-limit", h_massless, [dict()], max_paths=10, timeout_s=60,
                encodes=[EffectivePotentialNoResum.potentialOneLoopThermal], random_validation=2),
+    HarnessDef("default-integrals-are-direct", h_direct, [dict(via="potential"), dict(via="Integrals")], max_paths=2,
+               timeout_s=60, encodes=[IG.Integrals.__init__, EffectivePotentialNoResum.__init__], random_validation=1),
     HarnessDef("integrands", h_integrand, [dict(kind=k, region=r) for k in ("b", "f") for r in ("pos", "neg")],
                max_paths=20, timeout_s=60, axioms=[trig_axioms],
                encodes=[IG.JbIntegral._functionImplementation, IG.JbIntegral._integrandPositiveReal,
